@@ -119,7 +119,13 @@ class Gen:
                 pv = [v for v in iv if r.random() < 0.6] or iv[:1] or ["x"]
                 if tidy or d == 0:
                     pv = sorted(set(pv) | (set(iv) & set(inner_outer)))  # do not hide a variable shared with the outside
-                els.append(["subselect", dict(where=inner, proj=pv, distinct=r.random() < 0.3)])
+                sub = dict(where=inner, proj=pv, distinct=r.random() < 0.3)
+                if r.random() < 0.25:
+                    # a slice: ordered on every projected variable, so that only identical rows can tie
+                    sub["orderby"] = [[["var", v_], r.random() < 0.3] for v_ in pv]
+                    if r.random() < 0.7: sub["offset"] = r.choice([0, 1, 1, 2])
+                    if r.random() < 0.6 or "offset" not in sub: sub["limit"] = r.choice([1, 1, 2, 5])
+                els.append(["subselect", sub])
         if tidy or r.random() < 0.7:
             # VALUES (and sub-selects) go to the end, so that no OPTIONAL has them on its left
             els = [e for e in els if e[0] not in ("values",)] + [e for e in els if e[0] == "values"]
